@@ -50,6 +50,7 @@ mod c20 {
                 None => {
                     vk_assert!(match sink.got { Some(g) => same_td(g, want), None => false }, "C20.actuator.inner_receives_exactly_the_combined_data");
                     vk_assert!(sink.updates == 1, "C20.actuator.inner_updated_after_set");
+                    vk_assert!(sink.sets_seen_at_update == 1, "C20.actuator.set_happens_before_the_inner_update");
                     vk_assert!(res == match uerr { Some(e) => Err(Error::Other(e)), None => Ok(()) }, "C20.actuator.inner_update_error_propagated");
                 }
             }
@@ -59,7 +60,8 @@ mod c20 {
     // ---- encoder wrapper: updates its inner getter and writes its present state, unchanged, into the terminal
     pub struct Enc { pub ev: Ev<State>, pub upd_err: Option<E>, pub updates: u32 }
     impl Getter<State, E> for Enc {
-        fn get(&self) -> Output<State, E> { match self.ev { Ev::Some(t, v) => Ok(Some(Datum::new(Time(t), v))), Ev::None => Ok(None), Ev::Err(e) => Err(Error::Other(e)) } }
+        // like a sampling encoder: before its first update it has no reading at all
+        fn get(&self) -> Output<State, E> { if self.updates == 0 { return Ok(None); } match self.ev { Ev::Some(t, v) => Ok(Some(Datum::new(Time(t), v))), Ev::None => Ok(None), Ev::Err(e) => Err(Error::Other(e)) } }
     }
     impl Updatable<E> for Enc {
         fn update(&mut self) -> NothingOrError<E> { self.updates += 1; match self.upd_err { Some(e) => Err(Error::Other(e)), None => Ok(()) } }
